@@ -34,6 +34,7 @@ ALPHABET = ([("columns", n) for n in range(0, 4)] + [("values", n) for n in rang
             [("valuespanic", n) for n in range(0, 3)] + [("selectfrom", n) for n in range(1, 4)] +
             [("valuesfrompanic", 2), ("ordefault", 0), ("ordefaultmany", 2)])
 HIST = {}
+SRC = [None]
 
 
 def gen_cases(ctx):
@@ -61,6 +62,12 @@ def simulate(h):
     """spec-level reading of a history: expected log of the fallible calls, whether it panics,
     whether it re-declares the column list after a source was accepted (known class)"""
     ncols, has_source, log, recolumn = 0, False, [], False
+    SRC[0] = None          # the source the statement must end with: None | ("values", number of rows) | ("select",)
+
+    def accept_row(n):
+        # an accepted non-empty row is appended to the VALUES source; it replaces a SELECT source
+        if n > 0:
+            SRC[0] = ("values", (SRC[0][1] if SRC[0] and SRC[0][0] == "values" else 0) + 1)
     for k, n in h:
         if k == "columns":
             if has_source and n != ncols:
@@ -70,20 +77,25 @@ def simulate(h):
             if n == ncols:
                 log.append("ok")
                 has_source = has_source or n > 0
+                accept_row(n)
             else:
                 log.append("err(%d,%d)" % (ncols, n))
         elif k in ("valuespanic", "valuespanicit"):
             if n != ncols:
                 return log, True, recolumn
             has_source = has_source or n > 0
+            accept_row(n)
         elif k == "valuesfrompanic":
             if n != ncols:
                 return log, True, recolumn
             has_source = True
+            accept_row(n)
+            accept_row(n)
         elif k == "selectfrom":
             if n == ncols:
                 log.append("ok")
                 has_source = True
+                SRC[0] = ("select",)
             else:
                 log.append("err(%d,%d)" % (ncols, n))
     return log, False, recolumn
@@ -185,6 +197,16 @@ def batch_oracle(ctx, lines, impl):
             rect_checked += 1
             if any(r != ncols for r in rows):
                 verdicts[i] = ("RECOLUMN " if recolumn else "") + "VALUES rows have %s cells for %d columns" % (rows, ncols)
+        # every accepted row is in the statement, and the source is the kind accepted last
+        want_src = SRC[0]
+        if verdicts[i] is None and want_src is not None and not recolumn:
+            got_src = ("values", len(rows)) if rows is not None else (
+                ("select",) if any(t == ("W", "SELECT") for t in sqlparse.toks_of(toks[(b, f[0])])) else None)
+            if got_src != want_src:
+                verdicts[i] = "the calls accepted %s as the source, the statement carries %s" % (
+                    "a SELECT" if want_src[0] == "select" else "%d row(s)" % want_src[1],
+                    "a SELECT" if got_src and got_src[0] == "select" else
+                    ("%d row(s)" % got_src[1] if got_src else "no source"))
     ctx.cov["oracle_rectangles_checked"] = rect_checked
     return verdicts
 
